@@ -335,4 +335,42 @@ theorem nOkDel_eq {R : Type} (hash : List Nat → Nat) (nb lf : Nat) (c : Cls) :
       | del b => simp only [nOkDel, ledger, ledgerStep]; exact ih _ _ h
       | clr => simp only [nOkDel, ledger, ledgerStep]; exact ih _ _ h
 
+
+/-! ## Packaged history statement -/
+
+theorem Agree.empty_of_abs {R : Type} {hash : List Nat → Nat} {s : St R} (h : abs hash s = 0) :
+    Agree hash s Ledger.empty :=
+  ⟨fun _ => Nat.le_refl _, fun c => by rw [h]; simp [Ledger.empty], rfl, rfl⟩
+
+/-- everything the ledger says about the state reached by a history -/
+structure Matches {R : Type} (hash : List Nat → Nat) (s : St R) (L : Ledger) : Prop where
+  le : L.del ≤ L.ins
+  abs_eq : abs hash s = L.ins - L.del
+  len : s.n = L.nIns - L.nDel
+  cardIns : card L.ins = L.nIns
+  cardDel : card L.del = L.nDel
+  query : ∀ y, ∃ b, query hash s y = some b ∧ (b = true ↔ clsS hash s y ∈ L.ins - L.del)
+
+theorem Agree.matches {R : Type} {hash : List Nat → Nat} {s : St R} {L : Ledger}
+    (h : Agree hash s L) (hinv : Inv hash s) : Matches hash s L := by
+  refine ⟨h.le', h.abs_eq, h.len hinv, h.cardIns, h.cardDel, ?_⟩
+  intro y
+  obtain ⟨b, hb, hiff⟩ := query_spec hash hinv.1 y
+  exact ⟨b, hb, by rw [hiff, h.abs_eq]⟩
+
+theorem history_core {R : Type} (I : RngI R) (hI : RngOK I) (hash : List Nat → Nat) (kicks : Nat)
+    {s0 : St R} {L0 : Ledger} (hinv : Inv hash s0) (hag : Agree hash s0 L0) (ops : List (Op R))
+    (hops : ∀ op, op ∈ ops → OpOK hash s0.bs s0.nb s0.lf op) :
+    ∃ s outs, run I hash kicks s0 ops = some (s, outs) ∧ outs.length = ops.length ∧
+      SameParams s0 s ∧ Inv hash s ∧
+      Matches hash s (ledger hash s0.nb s0.lf L0 (ops.zip outs)) := by
+  obtain ⟨s, outs, h1, h2, h3, h4, h5⟩ := run_spec I hI hash kicks ops s0 L0 hinv hag hops
+  exact ⟨s, outs, h1, h2, h3, h4, h5.matches h4⟩
+
+/-- `query` reads only the parameters and the table -/
+theorem query_congr {R : Type} (hash : List Nat → Nat) {s s' : St R} (hp : SameParams s s')
+    (ht : s'.table = s.table) (y : Nat) : query hash s' y = query hash s y := by
+  unfold query
+  simp only [start, hp.1, hp.2.1, hp.2.2, ht]
+
 end Pds.Cuckoo
